@@ -62,6 +62,16 @@ Theorem C14_eq_hash_refuted_unhashable_literal : ~ eq_implies_hash_eq_full_state
 Proof. exact eq_hash_refuted_unhashable_literal. Qed.
 Print Assumptions C14_eq_hash_refuted_unhashable_literal.
 
+Theorem C14_eq_hash_refuted_kwonly_order : ~ eq_implies_hash_eq_full_statement.
+Proof. exact eq_hash_refuted_kwonly_order. Qed.
+Print Assumptions C14_eq_hash_refuted_kwonly_order.
+
+(* the order in which the keys of a TypedDict are declared is invisible to ==, hash and unite *)
+Example C14_typeddict_key_order_consistent :
+  veq w_td_xy w_td_yx = true /\ heq w_td_xy w_td_yx = true /\ unite [w_td_xy; w_td_yx] = w_td_xy.
+Proof. exact typeddict_key_order_consistent. Qed.
+Print Assumptions C14_typeddict_key_order_consistent.
+
 Theorem C14_veq_transitive_refuted : ~ veq_transitive_full_statement.
 Proof. exact veq_transitive_refuted. Qed.
 Print Assumptions C14_veq_transitive_refuted.
